@@ -681,6 +681,9 @@ func (c *Conn) WriteMessage(messageType MessageType, data []byte) error {
 		if len(data) > maxControlFramePayloadSize {
 			return ErrControlMessageTooBig
 		}
+		// control frames must not be fragmented, whatever
+		// MaxWebsocketFramePayloadSize is.
+		return c.writeFrame(messageType, true, true, data, false)
 	case FragmentMessage:
 	default:
 	}
